@@ -69,7 +69,7 @@ theorem normAttrs_congr (C : CaseOps) : ∀ (cs : List Cmp) (as bs : List Obj), 
 
 theorem SlotEqv_refl (C : CaseOps) : ∀ as : List Obj, SlotEqv C as as
   | [] => trivial
-  | a :: as => ⟨fun _ => rfl, rfl, SlotEqv_refl C as⟩
+  | _ :: as => ⟨fun _ => rfl, rfl, SlotEqv_refl C as⟩
 
 /-- slot-wise: same `norm` and same "is a string" shape give the same `slotNorm` -/
 theorem slotNorm_reid_dict (C : CaseOps) (c : Cmp) (i j : Nat) (es : List (Key × Obj)) :
